@@ -44,6 +44,13 @@ import (
 // Server.m.tree, and compares the number of clients registered at each path
 // with the model. A renamed field makes the census fail loudly, not pass.
 
+//
+// Two further demands follow from "at most once" and need no model: at a
+// quiescent point before which no notification was handed to the server
+// (after a Subscribe, an RPC end, a virtual sleep) nothing may have reached any
+// subscriber, and while one notification is handed over no EARLIER one may
+// reach a subscriber again (checkQuiet and the accounting of a notify op).
+
 // SrvOp is one step of a server-level scenario.
 //
 //	sub     client Client opens a STREAM Subscribe RPC with List (a client that
